@@ -64,7 +64,7 @@ def level_grid(typ, thorough):
     if typ == "null":
         return [(-1, 1, 2)]
     if typ == "lz4":
-        lv = list(range(0, 13))
+        lv = list(range(0, 13)) if thorough else [0, 1, 3, 6, 9, 10, 12]
     else:
         lv = list(range(1, 20)) if thorough else [1, 3, 6, 19]
     g = [(-1, lv[0], lv[-1])]
@@ -125,15 +125,68 @@ def replay_tasks(run, sets, builds, thorough):
     return tasks
 
 
-def run_replay(vhs, seed, task, corrupt=None):
+CRASH_MARKS = ("signal arrived during cgo execution", "SIGSEGV", "SIGABRT", "SIGBUS", "fatal error:", "unexpected signal")
+
+
+def crashed(rc, err):
+    return rc != 0 and any(m in err for m in CRASH_MARKS)
+
+
+def crash_desc(binding, typ, impl, act):
+    d = {"binding": binding, "type": typ, "impl": impl, "op": act.get("name"), "field": "crash"}
+    if act.get("name") == "Compress":
+        d["data"] = act.get("d")
+        d["scratch"] = act.get("s")
+        d["scratch_nonempty"] = act.get("s") in ("lenNcapBig", "lenNcapSmall")
+    return d
+
+
+def run_replay(vhs, seed, task, sc, corrupt=None):
+    """Replay one chunk. A crash of the harness process inside the code under test (a SIGSEGV in a C library cannot
+    be recovered in-process) is attributed to the step noted in the crash log, reported as a failing step, and the
+    replay resumes with the next behaviour."""
     bname, typ, (l0, la, lb), sname, base, chunk = task
-    args = ["codec-replay", "-type", typ, "-l0", str(l0), "-la", str(la), "-lb", str(lb), "-seed", str(seed), "-base", str(base)]
-    if corrupt is not None:
-        args += ["-corrupt", str(corrupt)]
-    rc, outs, _ = vlib.run_vh(vhs[bname], args, stdin_lines=chunk, timeout=1500)
-    summ = [o for o in outs if o.get("summary")]
-    vlib.require(summ and summ[0]["behaviours"] == len(chunk), "codec-replay did not process all behaviours (%s %s)" % (bname, typ))
-    return task, outs, summ[0]
+    clog = os.path.join(sc, "crash-%s-%s-%s-%s-%d-%d.json" % (bname, typ, l0, sname, base, os.getpid()))
+    outs_all = []
+    tot = {"behaviours": 0, "steps": 0, "failed": 0, "compress": 0, "decompress": 0, "bytes_in": 0, "crashes": 0}
+    lines, b0 = chunk, base
+    while lines:
+        args = ["codec-replay", "-type", typ, "-l0", str(l0), "-la", str(la), "-lb", str(lb), "-seed", str(seed), "-base", str(b0)]
+        if corrupt is not None:
+            args += ["-corrupt", str(corrupt)]
+        if os.path.exists(clog):
+            os.remove(clog)
+        rc, outs, err = vlib.run_vh(vhs[bname], args, stdin_lines=lines, timeout=1500, check=False,
+                                    env_extra={"GOMAXPROCS": "1", "VERIF_CRASHLOG": clog})
+        summ = [o for o in outs if o.get("summary")]
+        if rc == 0:
+            vlib.require(summ and summ[0]["behaviours"] == len(lines), "codec-replay did not process all behaviours (%s %s)" % (bname, typ))
+            outs_all += [o for o in outs if not o.get("summary")]
+            for k in ("behaviours", "steps", "failed", "compress", "decompress", "bytes_in"):
+                tot[k] += summ[0][k]
+            break
+        if not crashed(rc, err) or not os.path.exists(clog):
+            raise vlib.MachineryError("harness codec-replay %s/%s failed rc=%s\nstderr: %s" % (bname, typ, rc, err[-3000:]))
+        c = json.load(open(clog))
+        idx = c["index"]
+        vlib.require(b0 <= idx < b0 + len(lines), "crash log names behaviour %d outside the chunk" % idx)
+        outs_all += [o for o in outs if not o.get("summary")]
+        impl = BUILDS[bname][typ] if typ in ("lz4", "zstd") else "go"
+        sig = next((m for m in CRASH_MARKS[1:4] if m in err), "fatal")
+        outs_all.append({"id": idx, "ok": False, "step": c["step"], "desc": crash_desc("F", typ, impl, c["act"]),
+                         "msg": "the process crashed (%s) inside %s at level %s: %s" % (sig, c["act"].get("name"), c["level"], err[:300]),
+                         "detail": dict(c.get("info") or {}, level=c["level"]),
+                         "cfg": {"type": typ, "l0": l0, "la": la, "lb": lb, "seed": seed, "index": idx},
+                         "behaviour": json.loads(lines[idx - b0])})
+        cnt = c.get("counters", {})
+        tot["behaviours"] += idx - b0 + 1
+        tot["steps"] += cnt.get("steps", 0) + 1
+        tot["failed"] += cnt.get("failed", 0) + 1
+        for k in ("compress", "decompress", "bytes_in"):
+            tot[k] += cnt.get(k, 0)
+        tot["crashes"] += 1
+        lines, b0 = lines[idx - b0 + 1:], idx + 1
+    return task, outs_all, tot
 
 
 def desc_key(d):
@@ -162,7 +215,7 @@ def main():
         # ---- F
         sets = gen_behaviours(run, sc, thorough)
         tasks = replay_tasks(run, sets, bnames, thorough)
-        results = parallel(lambda *t: run_replay(vhs, run.seed, t), tasks)
+        results = parallel(lambda *t: run_replay(vhs, run.seed, t, sc), tasks)
         fails = {}      # descriptor -> [count, first failure]
         drift = {}
         per_cfg = {}
@@ -172,7 +225,8 @@ def main():
             steps += summ["steps"]
             k = "%s/%s" % (bname, typ)
             pc = per_cfg.setdefault(k, {"behaviours": 0, "steps": 0, "compress_calls": 0, "decompress_calls": 0, "bytes_in": 0,
-                                        "failed": 0, "levels": set()})
+                                        "failed": 0, "process_crashes": 0, "levels": set()})
+            pc["process_crashes"] += summ["crashes"]
             pc["behaviours"] += summ["behaviours"]
             pc["steps"] += summ["steps"]
             pc["compress_calls"] += summ["compress"]
@@ -210,7 +264,7 @@ def main():
 
         # negative control of the replay: a corrupted expectation must be rejected
         t0 = ("cgo", "lz4", (-1, 1, 9), "full2", 0, sets["full2"][:40])
-        _, outs, summ = run_replay(vhs, run.seed, t0, corrupt=17)
+        _, outs, summ = run_replay(vhs, run.seed, t0, sc, corrupt=17)
         bad = [o for o in outs if o.get("ok") is False]
         clean_before = not any(d["type"] == "lz4" and d["impl"] == "cgo" for _, d, _ in fails.values())
         if clean_before:
@@ -225,14 +279,30 @@ def main():
         dtasks = [(b, t) for b in bnames for t in ("lz4", "zstd", "null")
                   if not (b == "noliblz4" and t != "lz4" or b == "nolibzstd" and t != "zstd")]
 
+        dcrashes = []
+
         def drive(b, t):
             lo, hi = {"lz4": (0, 12), "zstd": (1, 19), "null": (0, 1)}[t]
-            rc, outs, err = vlib.run_vh(vhs[b], ["codec-drive", "-type", t, "-seed", str(run.seed), "-traces", str(ntr), "-ops", str(nops),
-                                                 "-minlevel", str(lo), "-maxlevel", str(hi)], timeout=1500)
-            vlib.require(all("_raw" not in o for o in outs), "codec-drive printed garbage")
-            for o in outs:
+            clog = os.path.join(sc, "crash-drive-%s-%s.json" % (b, t))
+            evs, first = [], 0
+            while first < ntr:
+                if os.path.exists(clog):
+                    os.remove(clog)
+                rc, outs, err = vlib.run_vh(vhs[b], ["codec-drive", "-type", t, "-seed", str(run.seed), "-traces", str(ntr), "-ops", str(nops),
+                                                     "-minlevel", str(lo), "-maxlevel", str(hi), "-first", str(first)], timeout=1500,
+                                            check=False, env_extra={"GOMAXPROCS": "1", "VERIF_CRASHLOG": clog})
+                vlib.require(all("_raw" not in o for o in outs), "codec-drive printed garbage")
+                evs += outs
+                if rc == 0:
+                    break
+                if not crashed(rc, err) or not os.path.exists(clog):
+                    raise vlib.MachineryError("harness codec-drive %s/%s failed rc=%s\nstderr: %s" % (b, t, rc, err[-3000:]))
+                c = json.load(open(clog))
+                dcrashes.append((b, t, c, err[:300]))
+                first = c["index"] + 1
+            for o in evs:
                 o["build"] = b
-            return outs
+            return evs
         events = [e for outs in parallel(drive, dtasks) for e in outs]
         vlib.require(len(events) > 100, "driver produced no events")
         tfile = os.path.join(sc, "trace.ndjson")
@@ -254,6 +324,18 @@ def main():
         run.sample({"kind": "implementation trace event", "event": comp[len(comp) // 3]})
         bad_inst = set()
         bfails = {}
+        for b, t_, c, err in dcrashes:
+            bad_inst.add((b, t_, c["index"]))
+            impl = BUILDS[b][t_] if t_ in ("lz4", "zstd") else "go"
+            d = crash_desc("B", t_, impl, c["act"])
+            if c["act"].get("name") == "Compress":
+                n_ = (c.get("info") or {}).get("data_len", -1)
+                d["data"] = "empty" if n_ == 0 else "b1" if n_ == 1 else "other"
+                d["scratch_nonempty"] = (c.get("info") or {}).get("scratch_len", 0) > 0
+                d.pop("scratch", None)
+            x = bfails.setdefault(desc_key(d), [0, d, {"kind": "codec-trace", "build": b, "crash": c, "stderr": err,
+                                                       "cmd": "vh_codec codec-drive -type %s -seed %d -traces %d -ops %d -first %d" % (t_, run.seed, ntr, nops, c["index"])}])
+            x[0] += 1
         for mm in t.mismatches:
             e = events[mm["line"] - 1]
             inst = (e["build"], e["type"], e["tr"])
